@@ -244,6 +244,17 @@ func load(dir string, workDir string) *loaded {
 type replayCase struct {
 	Harness string            `json:"harness"`
 	Model   map[string]string `json:"model"`
+	Expect  string            `json:"expect,omitempty"`
+}
+
+func expectOf(v interp.Violation) string {
+	switch v.Kind {
+	case "panic":
+		return "panic"
+	case "hang":
+		return "hang"
+	}
+	return v.Label
 }
 
 type replayResult struct {
@@ -475,10 +486,10 @@ func cmdRun(args []string) int {
 		if os.Getenv("VERIF_REPLAY") != "" {
 			var cases []replayCase
 			for _, v := range s.Viol {
-				cases = append(cases, replayCase{h, v.Model})
+				cases = append(cases, replayCase{h, v.Model, expectOf(v)})
 			}
 			for _, sm := range s.Samples {
-				cases = append(cases, replayCase{h, sm.Model})
+				cases = append(cases, replayCase{h, sm.Model, ""})
 			}
 			res, log, err := nativeReplay(*dir, ld, cases, work)
 			if err != nil {
@@ -635,15 +646,15 @@ func cmdCheck(args []string) int {
 			}
 			for _, v := range s.Viol {
 				pend = append(pend, pending{v, false, len(cases)})
-				cases = append(cases, replayCase{h, v.Model})
+				cases = append(cases, replayCase{h, v.Model, expectOf(v)})
 			}
 			for _, v := range s.KnownHits {
 				pend = append(pend, pending{v, true, len(cases)})
-				cases = append(cases, replayCase{h, v.Model})
+				cases = append(cases, replayCase{h, v.Model, expectOf(v)})
 			}
 			for _, sm := range s.Samples {
 				sampleOf = append(sampleOf, sampled{sm, len(cases)})
-				cases = append(cases, replayCase{h, sm.Model})
+				cases = append(cases, replayCase{h, sm.Model, ""})
 				if len(samples) < 6 {
 					samples = append(samples, map[string]interface{}{"harness": h, "outcome": sm.Outcome, "branch_decisions": sm.Decision, "inputs": sm.Model, "observed": sm.Observed})
 				}
@@ -853,7 +864,7 @@ func cmdReplay(args []string) int {
 			ld.files[filepath.Join(repoDir, vf.Dir, "zz_verif_"+e.Name())] = filepath.Join(harnessDir(vf.Dir), e.Name())
 		}
 	}
-	res, log, err := nativeReplay(vf.Dir, ld, []replayCase{{vf.Harness, vf.Model}}, work)
+	res, log, err := nativeReplay(vf.Dir, ld, []replayCase{{vf.Harness, vf.Model, expectOf(interp.Violation{Label: vf.Label, Kind: vf.Kind})}}, work)
 	if err != nil {
 		fmt.Println(log)
 		fmt.Println("replay failed:", err)
